@@ -3,7 +3,7 @@ import ast
 
 from ..core import call_name, dotted, src, walk_shallow, canon
 from ..lib import Rules, need, calls_in, mentions_attr
-from ..template import template_func, effects
+from ..template import template_func, effects, HelperInliner
 from . import dec_common as dc
 from . import refcheck
 
@@ -195,9 +195,10 @@ def call_effects(repo, chk):
     fi = repo.func(dc.DEC + '.__call__')
     tmpl = template_func(dc.ref_source(), '__call__')
     from .c02 import is_lm
-    have = effects(fi)
+    helper = HelperInliner(fi)
+    have = effects(fi, helper=helper)
     keys = [e.key for e in have]
-    for e in effects(tmpl):
+    for e in effects(tmpl, helper=helper):
         if not is_lm(e):
             continue
         ok = e.key in keys
